@@ -280,16 +280,20 @@ func (c *C11Scn) stream() ([]byte, string, error) {
 		// the stream of a spec is built once and reused by the many passes and
 		// re-executions of a scenario (cache of two, keyed by content)
 		key := specKey(c.Spec)
+		ambSettle()
 		for i := range streamCache {
 			if streamCache[i].key == key && streamCache[i].b != nil {
 				return streamCache[i].b, c.Spec.Enc, nil
 			}
 		}
-		src, err := c.Spec.build()
-		if err != nil {
-			return nil, "", err
-		}
-		b, err := src.Marshal()
+		var b []byte
+		var err error
+		ambIsolated(func() {
+			var src *trie.SlimTrie
+			if src, err = c.Spec.build(); err == nil {
+				b, err = src.Marshal()
+			}
+		})
 		if err != nil {
 			return nil, "", err
 		}
